@@ -97,10 +97,16 @@ class Vpn(Family):
                 labels = [rng.choice(LABELS[1:] + [rng.randrange(1, 2 ** 20)])]
             return (labels, rd or rnd_rd(rng), rnd_addr(l, low), l)
 
-        def rnd_nh():
-            ip = rng.choice([rng.getrandbits(bits) | 1 << (bits - 1), (0xffff << 32 | rng.getrandbits(32)) if self.v6
-                             else rng.getrandbits(32), 2 ** bits - 1])
-            return (rng.choice([0, 0, 0, 65535, 100]), rng.choice([0, 0, 0, 1, 2 ** 32 - 1]), ip)
+        def rnd_nh(nh6=None):
+            """(RD asn, RD an, address, address is IPv6).  The next-hop version is crossed with the family:
+            netaddr packs the ADDRESS (RD + 4 or RD + 16 octets, next-hop length 12 or 24) whatever the
+            routes are - VPNv4 routes with an IPv6 next hop are RFC 8950 / the ext_nexthop capability"""
+            if nh6 is None:
+                nh6 = rng.random() < .5
+            nb = 128 if nh6 else 32
+            ip = rng.choice([rng.getrandbits(nb) | 1 << (nb - 1), (0xffff << 32 | rng.getrandbits(32)) if nh6
+                             else rng.getrandbits(32), 2 ** nb - 1])
+            return (rng.choice([0, 0, 0, 65535, 100]), rng.choice([0, 0, 0, 1, 2 ** 32 - 1]), ip, nh6)
 
         def add(kind, routes, nh=None):
             cls = []
@@ -111,7 +117,8 @@ class Vpn(Family):
                     cls.append('last-label-0')
             else:
                 routes = [([WITHDRAW_LABEL], r[1], r[2], r[3]) for r in routes]
-            if self.v6 and (any(r[2] < 2 ** 32 for r in routes) or (nh is not None and nh[2] < 2 ** 32)):
+            if (self.v6 and any(r[2] < 2 ** 32 for r in routes)) or \
+                    (self.v6 and nh is not None and nh[3] and nh[2] < 2 ** 32):
                 cls.append('address-below-2^32')
             cases.append({'fam': self.name, 'kind': kind, 'v': {'routes': routes, 'nh': nh}, 'cls': cls})
 
@@ -133,10 +140,17 @@ class Vpn(Family):
         for rd in rd_boundaries():
             add('reach', [rnd_route(rng.choice([0, 17, 24, bits]), None, rd)], rnd_nh())
             add('unreach', [rnd_route(rng.choice([0, 17, 24, bits]), None, rd)])
-        # next-hop boundaries
-        for nh in ((0, 0, 0), (65535, 2 ** 32 - 1, 2 ** bits - 1), (0, 0, 2 ** 32 - 1 if self.v6 else 1),
-                   (0, 0, 2 ** 32 if self.v6 else 2 ** 31)):
+        # next-hop boundaries, both address versions on this family (an IPv6 next hop below 2^32 is the
+        # known low-address class and is only generated for the IPv6 family, whose known finding names it)
+        for nh in ((0, 0, 0, False), (65535, 2 ** 32 - 1, 2 ** 32 - 1, False), (0, 0, 1, False), (0, 0, 2 ** 31, False),
+                   (65535, 2 ** 32 - 1, 2 ** 128 - 1, True), (0, 0, 2 ** 32, True), (100, 1, 0x20010db8 << 96 | 1, True),
+                   (0, 0, 0xfe80 << 112 | 1, True), (0, 0, 0xffff << 32 | 0xac10040c, True)) + \
+                (((0, 0, 0, True), (0, 0, 2 ** 32 - 1, True)) if self.v6 else ()):
             add('reach', [rnd_route()], nh)
+            add('reach', [rnd_route(), rnd_route()], nh)
+        for l in (0, 1, 8, bits - 1, bits):
+            for nh6 in (False, True):
+                add('reach', [rnd_route(l)], rnd_nh(nh6))
         # several routes per attribute
         for _ in range(300 if ctx.thorough else 40):
             n = rng.choice([2, 2, 3, 5, 8])
@@ -153,7 +167,7 @@ class Vpn(Family):
                 room = target - (3 if kind == 'unreach' else 5 + 8 + bits // 8)
                 rs = [rnd_route(rng.randrange(8 * (k - 13) + 1, 8 * (k - 12) + 1))
                       for k in fill_sizes(room, range(13, 13 + bits // 8), rng)]
-                add(kind, rs, rnd_nh() if kind == 'reach' else None)
+                add(kind, rs, rnd_nh(self.v6) if kind == 'reach' else None)     # the size arithmetic above assumes this next hop
                 cases[-1]['huge'] = target > 60000
                 if not ok:
                     cases[-1]['unencodable'] = 'attribute value of %d octets' % target
@@ -168,8 +182,8 @@ class Vpn(Family):
               for r in v['routes']]
         if case['kind'] == 'unreach':
             return {'afi_safi': (self.afi, 128), 'withdraw': nl}
-        asn, an, ip = v['nh']
-        return {'afi_safi': (self.afi, 128), 'nexthop': {'rd': '%d:%d' % (asn, an), 'str': self.text(ip)},
+        asn, an, ip, nh6 = v['nh']
+        return {'afi_safi': (self.afi, 128), 'nexthop': {'rd': '%d:%d' % (asn, an), 'str': ip6(ip) if nh6 else ip4(ip)},
                 'nlri': nl}
 
     def coq_routes(self, rs):
@@ -179,7 +193,9 @@ class Vpn(Family):
         v = case['v']
         b = 'true' if self.v6 else 'false'
         if case['kind'] == 'reach':
-            return 'sx_res SB (reachvpn_construct %s %d %d %d %s)' % ((b,) + tuple(v['nh']) + (self.coq_routes(v['routes']),))
+            asn, an, ip, nh6 = v['nh']
+            return 'sx_res SB (reachvpn_construct_x %s %s %d %d %d %s)' % (
+                b, 'true' if nh6 else 'false', asn, an, ip, self.coq_routes(v['routes']))
         return 'sx_res sx_optbytes (unreachvpn_construct %s %s)' % (b, self.coq_routes(v['routes']))
 
     def coq_parse(self, case, octets):
@@ -206,7 +222,9 @@ class Vpn(Family):
         rs = [[list(r[0]), rd_expected(r[1]), render(r[2]), r[3]] for r in v['routes']]
         if case['kind'] == 'unreach':
             return rs
-        return [[0, v['nh'][0], v['nh'][1]], render(v['nh'][2]), rs]
+        asn, an, ip, nh6 = v['nh']
+        nhr = [4, ip] if not nh6 else (render_low(ip) if render is render_low else [6, ip])
+        return [[0, asn, an], nhr, rs]
 
     def classify(self, case, stage, obs):
         cls = case['cls']
